@@ -9,7 +9,7 @@ below plus `//@ rewrite` rules declared in the template; each application is cou
 Directives (payload = the plain lines that follow, up to the next `//@` line):
 
   //@ extract fn <file> <selector> [as <newname>]     selector: name | Type::name | Trait for Type::name
-  //@ extract block <file> <selector> from "<anchor>" [to "<anchor2>"]
+  //@ extract block <file> <selector> from "<anchor>" [to "<anchor2>" | to-block-end]
   //@ extract item <file> <kind> <Name>                kind: struct | enum | const | type | static
   //@ ret <name>                 name the return value: `-> T` becomes `-> (name: T)`
   //@ spec                       payload inserted between signature and body
@@ -18,6 +18,7 @@ Directives (payload = the plain lines that follow, up to the next `//@` line):
   //@ after "<anchor>"           payload inserted after the statement starting on the anchor's line
   //@ rewrite "<from>" "<to>"    literal replacement inside the extracted text (must hit at least once)
   //@ rewrite-re "<regex>" "<to>" regex (DOTALL) replacement, same rule
+  //@ rewrite? / rewrite-re?     same, but may hit zero times (alternative spellings of the same construct)
   //@ wrap                       (block only) payload = wrapper signature + contract, e.g. `fn f(x: u32) -> (r: u32) requires ..`
   //@ prologue / epilogue        (block only) payload placed before / after the region inside the wrapper
   //@ end
@@ -205,7 +206,7 @@ class Extractor:
                     raise ExtractError(f"bad anchor directive: {d}")
                 anchor = m.group(1).replace('\\"', '"')
                 try:
-                    pos = find_unique(self._code_view(src, masked), anchor, a, b)
+                    pos = find_unique(self._code_view(src, masked), anchor, (body_open + 1) if body_open is not None else a, b)
                 except LexError as e:
                     raise ExtractError(str(e))
                 ls = line_start(src, pos)
@@ -215,16 +216,16 @@ class Extractor:
                     first = ls + (len(src[ls:]) - len(src[ls:].lstrip(" \t")))
                     e = statement_end(masked, first)
                     inserts.append((e, "\n" + payload + "\n", order))
-            elif d.startswith("rewrite "):
-                m = re.match(r'rewrite\s+"((?:[^"\\]|\\.)*)"\s+"((?:[^"\\]|\\.)*)"\s*$', d)
+            elif d.startswith("rewrite ") or d.startswith("rewrite? "):
+                m = re.match(r'rewrite\??\s+"((?:[^"\\]|\\.)*)"\s+"((?:[^"\\]|\\.)*)"\s*$', d)
                 if not m:
                     raise ExtractError(f"bad rewrite directive: {d}")
-                local_rw.append((m.group(1).replace('\\"', '"'), m.group(2).replace('\\"', '"')))
-            elif d.startswith("rewrite-re "):
-                m = re.match(r'rewrite-re\s+"((?:[^"\\]|\\.)*)"\s+"((?:[^"\\]|\\.)*)"\s*$', d)
+                local_rw.append((m.group(1).replace('\\"', '"'), m.group(2).replace('\\"', '"'), d.startswith("rewrite?")))
+            elif d.startswith("rewrite-re ") or d.startswith("rewrite-re? "):
+                m = re.match(r'rewrite-re\??\s+"((?:[^"\\]|\\.)*)"\s+"((?:[^"\\]|\\.)*)"\s*$', d)
                 if not m:
                     raise ExtractError(f"bad rewrite-re directive: {d}")
-                local_rw.append((re.compile(m.group(1).replace('\\"', '"'), re.S), m.group(2).replace('\\"', '"')))
+                local_rw.append((re.compile(m.group(1).replace('\\"', '"'), re.S), m.group(2).replace('\\"', '"'), d.startswith("rewrite-re?")))
             elif d in ("wrap", "prologue", "epilogue"):
                 pass
             else:
@@ -277,7 +278,7 @@ class Extractor:
         text, n8 = rewrite_assert_macros(text)
         if n8:
             self.log["rewrites"].setdefault("R8", {"hits": 0, "why": rewrite_assert_macros.__doc__.strip()})["hits"] += n8
-        for frm, to in local_rw:
+        for frm, to, optional in local_rw:
             if isinstance(frm, str):
                 n = text.count(frm)
                 text = text.replace(frm, to)
@@ -285,7 +286,7 @@ class Extractor:
             else:
                 text, n = frm.subn(to, text)
                 frm_s = "re:" + frm.pattern
-            if n == 0:
+            if n == 0 and not optional:
                 raise ExtractError(f"{where}: rewrite {frm_s!r} matched nothing")
             self.log["local_rewrites"].append({"where": where, "from": frm_s, "to": to, "hits": n})
         if "get_unchecked" in text:
@@ -314,6 +315,10 @@ class Extractor:
         return text
 
     def do_block(self, head, sections):
+        to_block_end = False
+        if head.endswith(" to-block-end"):
+            to_block_end = True
+            head = head[:-len(" to-block-end")]
         m = re.match(r'extract block (\S+) (\S+(?: for \S+)?) from "((?:[^"\\]|\\.)*)"(?: to "((?:[^"\\]|\\.)*)")?$', head)
         if not m:
             raise ExtractError(f"bad directive: {head}")
@@ -331,6 +336,22 @@ class Extractor:
             ls2 = line_start(src, p2)
             first2 = ls2 + (len(src[ls2:]) - len(src[ls2:].lstrip(" \t")))
             e = statement_end(masked, first2)
+            if to_block_end:
+                # region runs to the end of the innermost block enclosing the first anchor (tail expression included)
+                depth = 0
+                k = p1
+                while k > f["open"]:
+                    k -= 1
+                    if masked[k] == "}":
+                        depth += 1
+                    elif masked[k] == "{":
+                        if depth == 0:
+                            break
+                        depth -= 1
+                e = match_close(masked, k)
+                # strip trailing whitespace before the closing brace
+                while e > ls1 and src[e - 1] in " \t\n":
+                    e -= 1
         except LexError as ex:
             raise ExtractError(f"{rel}::{selector}: {ex}")
         text, local_rw = self.apply_sections(src, masked, ls1, e, sections)
